@@ -365,7 +365,8 @@ def fn(ck, a):
             "a closing quote / a literal must be followed by SP, ')' or CRLF (true of every string position of the "
             "RFC 3501 response grammar): this is how an unescaped quote or a wrong count shows at octet level",
             "decode clause: RFC 2047 decoding, header unfolding and UTF-8/latin-1 decoding of 8-bit octets are done in "
-            "Python (trusted); mailbox names created through quoted strings are compared as the client wrote them",
+            "Python (trusted); runs of white space in display names compare as one space; the mailbox a LIST/STATUS "
+            "string describes is the folder that exists on disk after the CREATE",
         ]
         ck.cov["trusted_base"] = ["TLC", "harness/respgrammar.py (byte-class tokenizer, rendering of shapes, decode "
                                   "extraction)", "harness/wire.py (independent response reader, decode clause only)",
